@@ -103,6 +103,8 @@ def run(rep, tier, seed):
         rep.add_tlc("CTraitUpdate", ures)
         uresf = tlc.run_tlc("CTraitUpdate", "CTraitUpdate_unsafe.cfg", timeout=300, workers=1, heap="1g")
         rep.extra["kind_written_after_release_is_unsafe_by_TLC"] = (uresf.violated == "Safe")
+        urest = tlc.run_tlc("CTraitUpdate", "CTraitUpdate_tracked.cfg", timeout=300, workers=1, heap="1g")
+        rep.extra["dying_definition_left_on_the_collectors_lists_is_unsafe_by_TLC"] = (urest.violated == "Safe")
         uprogs = ctrait_update.programs()
         utrace = os.path.join(work, "update.ndjson")
         nu = 0
